@@ -206,6 +206,48 @@ func shadow(carry, block []byte) (maxReq uint64, runsOut bool, rest []byte) {
 	return maxReq, false, p
 }
 
+// lastOnly: the block parses exactly, every entry but the last has a lower-case name that differs from the names
+// before it, and the last entry has an empty value — so a name error can only come from the last entry, after which
+// nothing but its (zero) value length is left to read.
+func lastOnly(block []byte) bool {
+	p := block
+	get32 := func() (uint32, bool) {
+		if len(p) < 4 {
+			return 0, false
+		}
+		v := uint32(p[0])<<24 | uint32(p[1])<<16 | uint32(p[2])<<8 | uint32(p[3])
+		p = p[4:]
+		return v, true
+	}
+	n, ok := get32()
+	if !ok || n == 0 || n > spdy.MaxNumHeaders {
+		return false
+	}
+	seen := map[string]bool{}
+	for i := uint32(0); i < n; i++ {
+		nl, ok := get32()
+		if !ok || uint64(nl) > uint64(len(p)) {
+			return false
+		}
+		name := string(p[:nl])
+		p = p[nl:]
+		vl, ok := get32()
+		if !ok || uint64(vl) > uint64(len(p)) {
+			return false
+		}
+		p = p[vl:]
+		if i+1 < n {
+			if name != strings.ToLower(name) || seen[name] {
+				return false
+			}
+			seen[name] = true
+		} else if vl != 0 {
+			return false
+		}
+	}
+	return len(p) == 0
+}
+
 func verdictOfReq(req uint64) string {
 	if req >= guardAlloc {
 		return "guard:alloc"
@@ -227,7 +269,7 @@ func (c *countingReader) Read(p []byte) (int, error) { return c.r.Read(p) }
 // readAll reads frames from wire with one real Framer.  stopAfter[offset of the frame start] makes the run stop after an
 // accepted frame whose compressed window extended past its own block (the junk is in the compressed domain, where
 // the identity-codec model cannot follow).
-func readAll(wire []byte, stopAfter map[int]bool, adj map[int]int, bounds map[int]bool, hdrRanges [][2]int) string {
+func readAll(wire []byte, stopAfter map[int]bool, adj map[int]int, bounds map[int]bool, hdrRanges [][2]int, contOK map[int]bool) string {
 	br := bytes.NewReader(wire)
 	fr, err := spdy.NewFramer(io.Discard, &countingReader{br})
 	if err != nil {
@@ -292,7 +334,14 @@ func readAll(wire []byte, stopAfter map[int]bool, adj map[int]int, bounds map[in
 				}
 				out = append(out, fmt.Sprintf("E:%s+%d%s", c, used, big))
 			}
-			break
+			// per-frame errors of a frame that was parsed to its end: the connection stays usable, reading goes on.
+			// (header name errors only when the offending entry is the last one of its block and has an empty
+			// value: a reader that gave up early would then leave nothing but a zero count behind — see contOK)
+			recoverable := c == "zero" || c == "invhdr" || c == "toolong" || ((c == "unlower" || c == "dup") && contOK[pos])
+			if !recoverable || big != "" || stopAfter[pos] || (bounds != nil && !bounds[consumed]) {
+				break
+			}
+			continue
 		}
 		// delta to the declared frame boundary: 0 = the read consumed exactly 8+length bytes
 		l := int(wire[pos+5])<<16 | int(wire[pos+6])<<8 | int(wire[pos+7])
@@ -481,7 +530,7 @@ func execRt(toks []string) string {
 			return g
 		}
 	}
-	return strings.Join(res, " ") + " / " + readAll(wire.Bytes(), nil, adj, nil, nil)
+	return strings.Join(res, " ") + " / " + readAll(wire.Bytes(), nil, adj, nil, nil, nil)
 }
 
 // ---------------------------------------------------------------- st
@@ -499,6 +548,7 @@ func execSt(toks []string) string {
 	var hdrStarts []int // wire offsets of the header-bearing items, in order
 	bounds := map[int]bool{}
 	var hdrRanges [][2]int
+	contOK := map[int]bool{}
 	cut := 0
 	lastStart, lastHdr := 0, false
 	dead := false // the shadow saw a block error: the real reader stops there, later blocks are not screened
@@ -583,6 +633,7 @@ func execSt(toks []string) string {
 			if isHdr {
 				lastHdr = true
 				hdrStarts = append(hdrStarts, wire.Len())
+				contOK[wire.Len()] = lastOnly(block)
 				if p[4][0] != '=' {
 					adj[wire.Len()] = len(block) - len(cblock)
 				}
@@ -662,7 +713,7 @@ func execSt(toks []string) string {
 	if g := walk(w, hdrStarts); g != "" {
 		return g
 	}
-	return readAll(w, stopAfter, adj, bounds, hdrRanges)
+	return readAll(w, stopAfter, adj, bounds, hdrRanges, contOK)
 }
 
 // walk follows the frame boundaries the way the real reader consumes bytes and refuses images in which a
